@@ -1468,7 +1468,9 @@ def _collect_block(lines: List[str], start: int) -> Tuple[List[str], int]:
     i = start + 1
     block: List[str] = []
     while i < len(lines):
-        if not lines[i].strip():
+        stripped = lines[i].strip()
+        if not stripped or stripped.startswith("#"):
+            # blank and comment-only lines never end a block, whatever their column
             block.append(lines[i]); i += 1; continue
         if _indent_of(lines[i]) <= base:
             break
@@ -1497,7 +1499,7 @@ def _collect_if_structure(lines: List[str], start: int) -> Tuple[List[str], int]
     snippet.extend(block)
     while i < len(lines):
         raw = lines[i]
-        text = raw.strip()
+        text = _strip_inline_comment(raw.strip())
         if not text:
             snippet.append(raw)
             i += 1
@@ -1520,7 +1522,7 @@ def _collect_try_structure(lines: List[str], start: int) -> Tuple[List[str], int
     snippet.extend(block)
     while i < len(lines):
         raw = lines[i]
-        text = raw.strip()
+        text = _strip_inline_comment(raw.strip())
         if not text:
             snippet.append(raw)
             i += 1
@@ -2570,7 +2572,7 @@ def _parse_simple_lines(
             j = next_idx
             while j < len(snippet):
                 probe_raw = snippet[j]
-                probe_text = probe_raw.strip()
+                probe_text = _strip_inline_comment(probe_raw.strip())
                 if not probe_text:
                     j += 1
                     continue
@@ -2691,7 +2693,7 @@ def _parse_simple_lines(
 
             while j < len(snippet):
                 probe_raw = snippet[j]
-                probe_text = probe_raw.strip()
+                probe_text = _strip_inline_comment(probe_raw.strip())
                 if not probe_text:
                     j += 1
                     continue
@@ -4252,7 +4254,8 @@ def parse(src: str) -> Program:
     i = 0
     while i < len(lines):
         raw = lines[i]
-        text = raw.strip()
+        # block headers may carry a trailing comment (``while True:  # main loop``)
+        text = _strip_inline_comment(raw.strip())
 
         if not text or text.startswith('#'):
             i += 1; continue
